@@ -564,7 +564,17 @@ func newWorld(backend string) *fsWorld {
 		w.tfs = tarfs.New()
 		w.base = w.tfs
 	case "dirfs":
-		d, err := os.MkdirTemp("", "verif-dirfs-")
+		// DirFS's directory lives in memory-backed storage when the host has one: the per-case watchdog is a wall
+		// clock, and on a disk shared with other builds a single mkdir/unlink can stall for longer than the whole
+		// budget of a case (seen as `hang` on cases that replay in 50 ms).  VERIF_DIRFS_ON_DISK=1 keeps it under TMPDIR.
+		base := ""
+		if st, err := os.Stat("/dev/shm"); err == nil && st.IsDir() && os.Getenv("VERIF_DIRFS_ON_DISK") == "" {
+			base = "/dev/shm"
+		}
+		d, err := os.MkdirTemp(base, "verif-dirfs-")
+		if err != nil {
+			d, err = os.MkdirTemp("", "verif-dirfs-")
+		}
 		if err != nil {
 			panic(err)
 		}
